@@ -8,6 +8,7 @@
 //        form_drv reqexh  <maxtail>                    class-exhaustive bodies through http::request, every 1-cut
 //        form_drv urlexh  <maxlen>                     urlencoded bodies over {a = & + % 4}
 //        form_drv rand    <count> <maxpart> <smallpct> random part lists / limits / filters / cuts
+//        form_drv filt                                  one body x filters that read / seek / abort in every call-back
 //        form_drv seeds                                hand-written regression inputs
 // Two input classes are routed to side files so that a defect in their handling (both were defects of
 // the pinned snapshot, since fixed) cannot block the validation of everything else:  $VERIF_OUT.hl  (a delimiter followed by an
@@ -315,29 +316,78 @@ struct upcfg {
 	std::string flt;         // none | raw | mp
 	int buf;
 	std::vector<size_t> cuts;
+	// what the installed filter does in its call-backs (all of it is allowed by the API):
+	// rd[cb] for cb = 1 on_new_file, 2 on_upload_progress, 3 on_data_ready, 4 on_end_of_content (saved file references):
+	//   0 nothing, 1 read k bytes from the current position, 2 seek somewhere and read k, 3 rewind and read everything,
+	//   4 as 3, then leave the position in the middle
+	int rd[5]; long rk; int rstyle;      // rstyle 0: rdbuf()->sgetn, 1: istream::read + clear()
+	// abort_upload thrown at the ab_at-th call of call-back ab_cb (1..4 as above, 5 raw on_data_chunk, 6 raw on_end_of_content)
+	int ab_cb,ab_at,ab_code;
+	upcfg() : decl(0), cl(0), mp(0), mem(0), buf(4096), rk(0), rstyle(0), ab_cb(0), ab_at(0), ab_code(0) { rd[0]=rd[1]=rd[2]=rd[3]=rd[4]=0; }
 };
+struct obs { int cb,idx; long long size,pos,k; std::string data; };
 struct upres {
 	int st; bool ran;
 	std::vector<part> post,files;
 	std::string rp;
 	int raw_calls,raw_eoc,raw_err; std::string raw_data;
 	std::vector<std::pair<int,long long> > cbs; int mp_eoc,mp_err;
+	std::vector<obs> reads; bool fired;
 	int tmpd,tmpa;
 	std::vector<size_t> got;
 };
 static upcfg const *g_cfg;
 static upres *g_res;
 
+static void maybe_abort(int cb,int count)
+{
+	if(g_cfg->ab_cb==cb && g_cfg->ab_at==count) { g_res->fired=true; throw cppcms::http::abort_upload(g_cfg->ab_code); }
+}
 struct raw_flt : public cppcms::http::raw_content_filter {
-	virtual void on_data_chunk(void const *p,size_t n) { g_res->raw_calls++; g_res->raw_data.append((char const *)p,n); }
-	virtual void on_end_of_content() { g_res->raw_eoc++; }
+	raw_flt() {}
+	virtual void on_data_chunk(void const *p,size_t n) { g_res->raw_calls++; maybe_abort(5,g_res->raw_calls); g_res->raw_data.append((char const *)p,n); }
+	virtual void on_end_of_content() { g_res->raw_eoc++; maybe_abort(6,1); }
 	virtual void on_error() { g_res->raw_err++; }
 };
 struct mp_flt : public cppcms::http::multipart_filter {
-	virtual void on_new_file(cppcms::http::file &f) { g_res->cbs.push_back(std::make_pair(1,f.size())); }
-	virtual void on_upload_progress(cppcms::http::file &f) { g_res->cbs.push_back(std::make_pair(2,f.size())); }
-	virtual void on_data_ready(cppcms::http::file &f) { g_res->cbs.push_back(std::make_pair(3,f.size())); }
-	virtual void on_end_of_content() { g_res->mp_eoc++; }
+	int count[5]; int nparts; std::vector<cppcms::http::file *> saved;
+	mp_flt() : nparts(0) { count[0]=count[1]=count[2]=count[3]=count[4]=0; }
+	// the filter looks at the part through file::data(); what it sees is logged as an observation
+	void look(cppcms::http::file &f,int cb,int idx)
+	{
+		int mode=g_cfg->rd[cb];
+		if(!mode) return;
+		std::istream &in=f.data();
+		long long size=f.size();
+		obs o; o.cb=cb; o.idx=idx; o.size=size; o.k=g_cfg->rk;
+		in.clear();
+		if(mode==1) { o.pos=in.tellg(); if(o.pos<0) { in.clear(); in.seekg(0); o.pos=0; } }
+		else if(mode==2) { o.pos=(count[cb]*7+idx*3)%(size+1); in.seekg(o.pos); }
+		else { o.pos=0; in.seekg(0); o.k=size+5; }
+		std::string buf((size_t)o.k,'\0');
+		std::streamsize n=0;
+		if(o.k>0) {
+			if(g_cfg->rstyle==0) n=in.rdbuf()->sgetn(&buf[0],o.k);
+			else { in.read(&buf[0],o.k); n=in.gcount(); in.clear(); }
+		}
+		if(n<0) n=0;
+		o.data.assign(buf.data(),(size_t)n);
+		if(mode==4) in.seekg(size/2);
+		g_res->reads.push_back(o);
+	}
+	virtual void on_new_file(cppcms::http::file &f)
+	{
+		nparts++; saved.push_back(&f);
+		g_res->cbs.push_back(std::make_pair(1,f.size())); count[1]++; maybe_abort(1,count[1]); look(f,1,nparts);
+	}
+	virtual void on_upload_progress(cppcms::http::file &f) { g_res->cbs.push_back(std::make_pair(2,f.size())); count[2]++; maybe_abort(2,count[2]); look(f,2,nparts); }
+	virtual void on_data_ready(cppcms::http::file &f) { g_res->cbs.push_back(std::make_pair(3,f.size())); count[3]++; maybe_abort(3,count[3]); look(f,3,nparts); }
+	virtual void on_end_of_content()
+	{
+		g_res->mp_eoc++; count[4]++;
+		for(size_t i=0;i<saved.size();i++) look(*saved[i],4,i+1);
+		maybe_abort(4,1);
+	}
 	virtual void on_error() { g_res->mp_err++; }
 };
 
@@ -378,7 +428,7 @@ static void stop_ios() { g_ios->stop(); }
 
 static upres run_request(upcfg const &c)
 {
-	upres R; R.st=0; R.ran=false; R.raw_calls=R.raw_eoc=R.raw_err=0; R.mp_eoc=R.mp_err=0; R.tmpd=0; R.tmpa=0;
+	upres R; R.st=0; R.ran=false; R.raw_calls=R.raw_eoc=R.raw_err=0; R.mp_eoc=R.mp_err=0; R.tmpd=0; R.tmpa=0; R.fired=false;
 	g_cfg=&c; g_res=&R;
 	{
 		std::map<std::string,std::string> env;
@@ -424,8 +474,17 @@ static std::string outcome_json(upcfg const &c,upres const &R,bool small)
 		i=j;
 	}
 	for(size_t i=0;i<cbs.size();i++) { snprintf(b,sizeof(b),i?",[%d,%lld]":"[%d,%lld]",cbs[i].first,cbs[i].second); cb+=b; }
+	// observations of the filter: first and last 40 kept when there are many
+	std::string ob="[";
+	for(size_t i=0,n=0;i<R.reads.size();i++) {
+		if(R.reads.size()>80 && i>=40 && i+40<R.reads.size()) continue;
+		obs const &o=R.reads[i];
+		snprintf(b,sizeof(b),"%s{\"c\":%d,\"i\":%d,\"s\":%lld,\"p\":%lld,\"k\":%lld,",n++?",":"",o.cb,o.idx,o.size,o.pos,o.k);
+		ob+=b; ob+=jdata(o.data,small)+"}";
+	}
 	snprintf(b,sizeof(b),"],\"eoc\":%d,\"err\":%d},",R.mp_eoc,R.mp_err);
-	s+="\"mpf\":{\"cbs\":"+cb+b;
+	s+="\"mpf\":{\"cbs\":"+cb+"],\"obs\":"+ob+b;
+	snprintf(b,sizeof(b),"\"fired\":%s,",R.fired?"true":"false"); s+=b;
 	snprintf(b,sizeof(b),"\"tmpd\":%d,\"tmpa\":%d",R.tmpd,R.tmpa); s+=b;
 	(void)c;
 	return s;
@@ -439,6 +498,9 @@ static std::string input_json(upcfg const &c,bool small,std::vector<part> const 
 		c.body.size(),jdig(c.body).c_str(),c.decl,c.cl,c.mp,c.mem,c.flt.c_str(),c.buf);
 	s+=b;
 	if(enc) s+="\"enc\":"+jparts(*enc,small)+",";
+	snprintf(b,sizeof(b),"\"pol\":{\"rd\":[%d,%d,%d,%d],\"k\":%ld,\"style\":%d},\"ab\":{\"cb\":%d,\"at\":%d,\"code\":%d},",
+		c.rd[1],c.rd[2],c.rd[3],c.rd[4],c.rk,c.rstyle,c.ab_cb,c.ab_at,c.ab_code);
+	s+=b;
 	return s;
 }
 
@@ -688,7 +750,18 @@ static void run_rand(vt::rng &rnd,size_t maxpart,unsigned smallpct)
 	c.mp=around(rnd,c.decl,8<<20);
 	c.mem=(size_t)around(rnd,maxfile,rnd(2)?0:(1<<20));
 	if(rnd(3)==0) c.mem=rnd(maxfile+2);
-	switch(rnd(4)) { case 0: c.flt="raw"; break; case 1: c.flt="mp"; break; default: c.flt="none"; }
+	switch(rnd(5)) { case 0: c.flt="raw"; break; case 1: case 2: c.flt="mp"; break; default: c.flt="none"; }
+	if(c.flt=="mp" && rnd(4)) {      // a filter that looks at the parts: read / seek in any call-back
+		for(int cb=1;cb<=4;cb++) c.rd[cb] = rnd(2) ? rnd(5) : 0;
+		c.rk = rnd(3)==0 ? rnd(3) : 1+rnd(small?12:3000);
+		c.rstyle=rnd(2);
+	}
+	if(c.flt!="none" && rnd(6)==0) {   // a filter that gives up
+		static const int codes[]={403,409,500,404,503};
+		c.ab_cb = c.flt=="mp" ? 1+rnd(4) : 5+rnd(2);
+		c.ab_at = 1+rnd(3); c.ab_code=codes[rnd(5)];
+	}
+	if(small && rnd(5)<2) c.mem=rnd(4);            // small parts spilled to disk, too
 	if(c.flt=="raw") c.cl=around(rnd,c.decl,1<<20);   // no effect on multipart, but exercised
 	static const int bufs[]={1,2,3,7,64,1000,1024,4096,8192,65536};
 	c.buf=bufs[rnd(10)]; if(rnd(3)==0) c.buf=1+rnd(65536);
@@ -729,6 +802,48 @@ static void run_rand_other(vt::rng &rnd,size_t maxlen)
 	size_t nc=rnd(6); for(size_t i=0;i<nc;i++) c.cuts.push_back(1+rnd(c.body.size()/2+2));
 	upres r=run_request(c); n_runs++; n_bodies++;
 	B_main->ev(input_json(c,small,0)+"\"cnt\":1,\"cut\":"+jints(r.got,40)+","+outcome_json(c,r,small)+"}");
+}
+
+// ------------------------------------------------------------------ filters that look at the parts
+// one well-formed body (fields incl. an empty one and a token, one file) x read policies of the filter x
+// in-memory / spilled x buffer sizes x abort_upload at every call-back
+static void mode_filt(vt::rng &rnd,bool big)
+{
+	std::vector<part> ps;
+	part a; a.name="csrf"; a.data="tok-0123456789abcdef"; ps.push_back(a);
+	part e; e.name="empty"; ps.push_back(e);
+	part f; f.name="upload"; f.filename="x.bin"; f.mime="application/octet-stream"; f.data=std::string("\0\1\r\n--B\r\n-\xff binary \r\n",21); ps.push_back(f);
+	part d; d.name="descr"; d.data= big ? rnd_content(rnd,20000,"Bnd7") : std::string("some text\r\nwith a line end, 40 bytes.."); ps.push_back(d);
+	part g; g.name="csrf"; g.data="second"; ps.push_back(g);
+	block *b=B_main;
+	static const int bufs[4]={1,7,64,4096};
+	static const size_t mems[3]={0,8,1<<20};
+	int npol=0;
+	for(int cb=0;cb<=4;cb++) for(int mode=(cb?1:0);mode<=(cb?4:0);mode++) for(int cb2=0;cb2<=4;cb2++) {
+		if(cb2 && (cb2==cb || (npol++%3))) continue;        // single call-backs, and a third of the pairs
+		for(int mi=0;mi<3;mi++) for(int bi=0;bi<4;bi++) {
+			if(big && (bi==0 || mi==1)) continue;
+			upcfg c; c.ct="mp"; c.bnd="Bnd7"; c.ctype="multipart/form-data; boundary=Bnd7";
+			c.body=encode(ps,c.bnd,rnd,b,(unsigned)(cb*5+mode));
+			c.decl=c.body.size(); c.cl=1<<20; c.mp=1<<20; c.mem=mems[mi]; c.flt= cb ? "mp" : ((mi+bi)%2?"mp":"none"); c.buf=bufs[bi];
+			if(cb) c.rd[cb]=mode;
+			if(cb2) c.rd[cb2]=1+(mode+cb2)%4;
+			c.rk = (bi%2) ? 4 : 1000; c.rstyle=(mi+bi+mode)%2;
+			bool small=!big;
+			upres r=run_request(c); n_runs++; n_bodies++;
+			b->ev(input_json(c,small,&ps)+"\"cnt\":1,\"cut\":"+jints(r.got,12)+","+outcome_json(c,r,small)+"}");
+		}
+	}
+	// abort_upload from every call-back, at the 1st / 2nd / 3rd call
+	for(int ab=1;ab<=6;ab++) for(int at=1;at<=3;at++) for(int bi=0;bi<4;bi+=(big?3:1)) {
+		upcfg c; c.ct="mp"; c.bnd="Bnd7"; c.ctype="multipart/form-data; boundary=Bnd7";
+		c.body=encode(ps,c.bnd,rnd,b,7u);
+		c.decl=c.body.size(); c.cl=1<<20; c.mp=1<<20; c.mem=mems[at%3]; c.flt= ab<=4 ? "mp" : "raw"; c.buf=bufs[bi];
+		if(ab<=4) { c.rd[3]=3; c.rd[2]=1; c.rk=5; }
+		c.ab_cb=ab; c.ab_at=at; c.ab_code= 403+at;
+		upres r=run_request(c); n_runs++; n_bodies++;
+		b->ev(input_json(c,!big,&ps)+"\"cnt\":1,\"cut\":"+jints(r.got,12)+","+outcome_json(c,r,!big)+"}");
+	}
 }
 
 // ------------------------------------------------------------------ seeds
@@ -816,6 +931,7 @@ int main(int argc,char **argv)
 			long count=atol(argv[2]); size_t maxpart=atol(argv[3]); unsigned smallpct=atoi(argv[4]);
 			for(long i=0;i<count;i++) { if(i%5==4) run_rand_other(rnd,maxpart); else run_rand(rnd,maxpart,smallpct); }
 		}
+		else if(mode=="filt") { mode_filt(rnd,false); mode_filt(rnd,true); }
 		else if(mode=="seeds") {
 			std::string H=hvariant(0,B_main,B_hl);
 			std::string cd="--B\r\n"+H+"\r\n\r\n";
